@@ -2,6 +2,7 @@
 //! and prints one observation per case.  Line format: "<id> <term>" in, "<id> <term>" out.
 mod container;
 mod conv;
+mod corpus;
 mod ops;
 mod settings;
 mod sexp;
